@@ -738,10 +738,25 @@ class Probe:
                 i += 1
         return ''.join(out)
 
-    def run(self, cases, limit_ms=3000):
-        """cases: list of (dialect, flags, pattern, input, replacement) -> list of dict op->result ('TIMEOUT': True)"""
+    def run(self, cases, limit_ms=3000, jobs=8, retry=True):
+        """cases: list of (dialect, flags, pattern, input, replacement) -> list of dict op->result ('TIMEOUT': True).
+        A long list is cut into contiguous slices that run in several probe processes side by side (the answer for a case
+        does not depend on the other cases of its process: every case compiles its own regex). The first case of a slice
+        that hits the time limit is run once more, alone and with ten times the limit, before it counts as not returning."""
+        if len(cases) >= 4000 and jobs > 1:
+            import concurrent.futures as cf
+            n = (len(cases) + jobs - 1) // jobs
+            parts = [cases[i:i + n] for i in range(0, len(cases), n)]
+            with cf.ThreadPoolExecutor(len(parts)) as ex:
+                outs = list(ex.map(lambda part: self.run(part, limit_ms, 1, retry), parts))
+            return [r for o in outs for r in o]
+        res = self._run(cases, limit_ms, retry)
+        return res
+
+    def _run(self, cases, limit_ms, retry=False):
         res = [None] * len(cases)
         start = 0
+        confirmed = False
         while start < len(cases):
             lines = ''.join('%d\t%s\n' % (i, '\t'.join(self._e(f) for f in cases[i])) for i in range(start, len(cases)))
             p = subprocess.run([self.bin, str(limit_ms)], input=lines, capture_output=True, text=True, timeout=3600)
@@ -759,6 +774,15 @@ class Probe:
                     res[i][f[1]] = True
                     if f[1] == 'TIMEOUT':
                         last_done = i
+                        if retry and not confirmed:
+                            # once more, alone, with ten times the limit: a loaded machine must not become a C06 alarm
+                            again = self._run([cases[i]], limit_ms * 10)[0]
+                            if again is not None and not again.get('TIMEOUT'):
+                                res[i] = again
+                            else:
+                                # the code under test does hang: the remaining cases get a short limit
+                                confirmed = True
+                                limit_ms = min(limit_ms, 500)
                 elif len(f) >= 3:
                     res[i][f[1]] = self._u(f[2])
             if last_done < start:
